@@ -39,7 +39,7 @@ def correspondence(ctx, flat=True, count=10):
     lines, metas = [], []
     npairs = 0
     for i in range(count * ctx.scale):
-        a, b = cc.rand_pair(rng, i)
+        a, b = cc.rand_pair(rng, i, lobes=True)
         op = rng.choice(list(cc.OPS))
         try:
             res, log = cc.record_clip(cc.build(a), cc.build(b), op, flat)
@@ -141,7 +141,7 @@ def search(ctx, budget):
             a = cc.rand_shape(rng, span=1000, sizes=(200, 2000))
             b = cc.rand_shape(rng, span=1000, sizes=(200, 2000))
         else:
-            a, b = cc.rand_pair(rng, i)
+            a, b = cc.rand_pair(rng, i, lobes=True)
         inp = {"a": a, "b": b, "seed": rng.randint(0, 10 ** 6)}
         if repr((a, b)) not in seen:
             seen.add(repr((a, b)))
